@@ -71,6 +71,26 @@ Extension (round 7), KEY ALPHABET: field names with NON-ASCII letters.
     sharp s ('\u00df' / 'SS'), Turkish dotted capital I and dotless i, Greek final
     sigma.  ``run_tolerated`` records what the tree does (one field or two) as
     evidence; no outcome there is a violation.
+
+Extension (round 8), BULK / INDIRECT REMOVAL FOLLOWED BY RE-USE.
+(5) New operations ``clear`` (d.clear()), ``popitem`` (d.popitem(); KeyError on an empty mapping), ``reinit``
+    (other = d.copy() / type(d)(d) / Deb822Dict(d) / dict(d) / list(d.items()); d.clear(); full observation of
+    the emptied mapping; d.update(other)) and ``update`` from another Deb822Dict; macro removals built from them
+    and from the old del / pop: clear, popitem until empty (and once more), pop(k) / pop(k, default) of every
+    key through case variants, del of every key in turn, mixed, partial-then-clear, clear + update(other),
+    removal on a copy / on the original of a copy.  Each removal is FOLLOWED by re-use of the former names (same
+    spelling and case variants) and of fresh names through every operation kind, the full observation running
+    after every step as before: an emptied mapping has no members (``k in d`` False, d[k] KeyError, get ->
+    default for every spelling of every former name, list/len/items/keys/values/dump empty, re-orders of former
+    names rejected with KeyError); a re-assigned former name is a NEW member - once, at the end, spelled as in
+    the re-assignment (what the unchanged tree does: removal forgets the old spelling).  popitem(): WHICH member
+    goes is not demanded (the unchanged tree removes the first); the returned pair must be a member in its
+    stored spelling with its value, and exactly that member is gone afterwards.  Objects left behind by copies /
+    reinit sources are ghosts as before: emptying one object must not change the other (both directions are
+    counted).  Sources: ``bulk_enum_cases`` (every start kind x 24 removal scripts x fixed re-use scripts) and
+    flavour 'bulk' (``gen_bulk_history``).  Counters ``bulk:*`` / monitors ``M.emptied``, ``M.after-emptied``
+    have floors, among them clear / popitem-to-empty followed by re-use and by re-assignment of a former name
+    for EVERY start kind (the object emptied is the start object itself, not a copy of it).
 """
 import functools
 import io
@@ -122,7 +142,27 @@ RULE = ('Histories = start state (empty / dict / pair list / parsed from str, by
         'one, per operation kind and item/reference role), uni:copy:<route>, uni:cycle:<route>, uni:start:<kind>, '
         'uni:sort:* all have floors.  (4) counted only, never judged: 18 pairs x 2 classes of the tolerated-'
         'unspecified classes (sharp s / SS, dotted capital I, dotless i, final sigma): one field or two, recorded in '
-        'tolerated_unspecified_observed.')
+        'tolerated_unspecified_observed.  '
+        '(5) BULK / INDIRECT REMOVAL FOLLOWED BY RE-USE: operations clear (d.clear()), popitem (d.popitem(), also on '
+        'the empty mapping), reinit (other = d.copy() / type(d)(d) / Deb822Dict(d) / dict(d) / list(d.items()); '
+        'd.clear(); observe; d.update(other)) and update(another Deb822Dict).  Enumerated: 11 start configurations '
+        '(every start kind; Deb822 and Deb822Dict) x 24 removal scripts (clear, clear twice, popitem to empty / past '
+        'empty, pop(k) / pop(k, default) of every key also through case variants, del of every key forward / in '
+        'reverse through variants, re-order then clear / popitem, reinit by 5 routes, clear + update(dict / pairs / '
+        'Deb822Dict), clear / popitem-to-empty of a copy and of the original of a copy, dump->parse then clear) x 1 of 2 '
+        '(quick, alternating) / 12 (thorough) name sets (ASCII and non-ASCII), each followed by one of two fixed re-use scripts '
+        '(membership, lookup, re-orders, pop, del, sort, copy, dump->parse on the emptied mapping; re-assignment of '
+        'former names in the same and in another spelling and of fresh names; re-orders through variants; sort; '
+        'copy; dump->parse; delete and re-assign again; setdefault; update; popitem; clear; re-assign).  Seeded '
+        '"bulk" histories: start of any kind (filled first when empty), 0-4 prelude operations, then 1-2 rounds of '
+        '[removal macro: clear / popitem-to-empty / pop-all / del-all / mixed / partial-then-clear / reinit / '
+        'clear+update / copy-then-empty] + 3-9 (quick) or 3-12 (thorough) re-use operations whose keys are aimed at '
+        'former names (same spelling / variant), present names (variant / exact) and fresh names.  Counters '
+        'bulk:emptied-by:<op>, bulk:on-emptied:op:<kind> (operation on a mapping that is empty after a removal), '
+        'bulk:after-emptied:op:<kind>, bulk:reuse-former:<kind>:<same|variant>, bulk:<clear|popitem|pop|del>:'
+        'reuse-former:origin-<start kind> and :reassign-former:origin-<start kind> (the emptied object is the start '
+        'object itself), bulk:reinit:<route>, bulk:clear-then-update:<how>, bulk:ghost:* (object left behind observed '
+        'after the other one was emptied, both directions) and monitors M.emptied / M.after-emptied all have floors.')
 ASSUMPTIONS = ['vp.models.cimap.CIListMap (list of pairs, keys folded with str.lower()) is the reference semantics of the statement',
                'domain: field names without colon/whitespace that are ASCII or belong to the judged non-ASCII class '
                'below; values that are valid ASCII Deb822 values without leading/trailing whitespace (value '
@@ -165,7 +205,23 @@ ASSUMPTIONS = ['vp.models.cimap.CIListMap (list of pairs, keys folded with str.l
                'views (keys()/values()/items()) are taken AFTER the re-ordering they are compared for; whether a view '
                'object obtained before a re-ordering follows it is not demanded',
                'a copy must be of the requested class (d.copy() / type(d)(...) the class of d, Deb822(d) a Deb822, '
-               'Deb822Dict(d) a Deb822Dict); copy.copy()/copy.deepcopy()/pickle are outside the statement and not driven']
+               'Deb822Dict(d) a Deb822Dict); copy.copy()/copy.deepcopy()/pickle are outside the statement and not driven',
+               'removal by any route (del, pop, popitem, clear) ends the membership of a name: afterwards it is a missing '
+               'key for every operation, and a later assignment is a FIRST insertion again - the name appears once, at '
+               'the end, spelled as in that assignment ("spelling of the first insertion" is read as the insertion that '
+               'created the present membership; established on the unchanged tree, where removal forgets the old spelling)',
+               'popitem(): which member is removed is NOT demanded (MutableMapping leaves it open; the unchanged tree '
+               'removes the first, recorded in the popitem:<position> counters).  Demanded: the result unpacks to a '
+               '(key, value) pair that is a member in its stored spelling with its current value, exactly that member '
+               'is gone afterwards and the others keep their order; on an empty mapping popitem() raises KeyError (the '
+               'mapping protocol, dict and MutableMapping alike) and changes nothing',
+               'clear(): the return value is not judged; clear() of an empty mapping is a valid no-op',
+               'pop(k, default) of a missing key returns the default and changes nothing (counted as a valid operation); '
+               'pop(k) of a missing key raises KeyError',
+               'update(other) with another Deb822Dict as argument contributes list(other.items()) of the reference model '
+               'of `other` (first spelling, last value per name), applied in order; reinit: what dict(d) / list(d.items()) '
+               '/ a copy of d holds is the model of d (keys of one paragraph are case-insensitively unique), so '
+               'd.clear(); d.update(that) must restore keys, spellings, order and values']
 ANCHORS = ['debian.deb822:Deb822Dict.__init__',
            'debian.deb822:Deb822Dict.__setitem__',
            'debian.deb822:Deb822Dict.__getitem__',
@@ -206,7 +262,7 @@ MUST_REACH = ['debian.deb822:Deb822Dict.__setitem__', 'debian.deb822:Deb822Dict.
               'debian._util:LinkedList.remove_node', 'debian._util:_CaseInsensitiveString.__eq__']
 
 # total numbers of RANDOM histories per tier (the enumerated part comes on top)
-RANDOM_HISTORIES = {'quick': 6000, 'thorough': 300000}
+RANDOM_HISTORIES = {'quick': 5400, 'thorough': 300000}
 MAX_OPS = {'quick': 30, 'thorough': 40}
 # the two added flavours ('sortkeys', 'copies'): shorter histories, counts per tier
 FLAVOUR_HISTORIES = {'sortkeys': {'quick': 1200, 'thorough': 60000}, 'copies': {'quick': 1200, 'thorough': 60000}}
@@ -278,6 +334,11 @@ UNI_OTHER_FLOOR = {
                  'uni:sort:moved': 15000, 'uni:sort:non-ascii-folding-matters': 900,
                  'uni:fail:self-relative-variant': 23000, 'uni:failed-op': 100000, 'uni:nontrivial': 40000},
 }
+# round 8, bulk / indirect removal followed by re-use
+BULK_HISTORIES = {'quick': 1000, 'thorough': 60000}
+BULK_REUSE_OPS = {'quick': 9, 'thorough': 12}
+BULK_ENUM_ROUNDS = {'quick': 2, 'thorough': 12}
+BULK_FLOORS = {'quick': {}, 'thorough': {}}          # filled in below (BULK_FLOOR_TABLE)
 # the tolerated-unspecified probes are a fixed list run by every shard: their floors (pairs x 2 classes = one
 # shard's worth, built below) only say "they ran", never anything about their outcome
 
@@ -570,9 +631,24 @@ def _apply_to_model(m, op):
         pairs = [(k, v) for k, v in op[1]]
         if op[2] == 'dict':
             pairs = list(dict(pairs).items())      # what a dict argument really contains
+        elif op[2] == 'Deb822Dict':
+            pairs = CIListMap(pairs).items()       # what another case-insensitive mapping built from them contains
         for k, v in pairs:
             m.set(k, v)
         return ('ok', None)
+    if kind == 'clear':
+        del m.pairs[:]
+        return ('ok', None)
+    if kind == 'popitem':
+        # GENERATOR-side prediction only (the unchanged tree removes the first member); execute() does not demand
+        # which member goes and follows the pair the live object returned
+        if not len(m):
+            return ('KeyError', None)
+        k, v = m.pairs[0]
+        del m.pairs[0]
+        return ('ok', (k, v))
+    if kind == 'reinit':
+        return ('ok', None)                        # snapshot; clear(); update(snapshot): same mapping as before
     raise AssertionError('unknown op %r' % (op,))
 
 
@@ -867,6 +943,307 @@ def uni_sort_cases(ctx):
                 yield {'cls': cls, 'start': st, 'ops': ops, 'enum': True, 'flavour': 'uni-sort'}
 
 
+# ---------------------------------------------------------------------------
+# round 8: bulk / indirect removal followed by re-use
+
+REINIT_HOWS = ('copy', 'ctor', 'Deb822Dict', 'dict', 'items')
+BULK_UPDATE_HOWS = ('dict', 'pairs', 'Deb822Dict')
+BULK_REMOVALS = {'clear': 18, 'popitem-to-empty': 16, 'pop-all': 10, 'del-all': 10, 'mixed-to-empty': 8,
+                 'reinit-self': 8, 'reinit-other': 10, 'copy-then-empty': 12, 'partial-then-clear': 8}
+BULK_PRELUDE = {'set': 20, 'del': 8, 'first': 10, 'last': 10, 'before': 12, 'after': 12, 'sort': 6, 'pop': 3,
+                'setdefault': 3, 'update': 3, 'copy': 3}
+BULK_REUSE = {'set': 34, 'in': 5, 'get': 5, 'first': 6, 'last': 6, 'before': 7, 'after': 7, 'sort': 5, 'copy': 6,
+              'cycle': 5, 'pop': 4, 'del': 4, 'setdefault': 4, 'update': 5, 'popitem': 2, 'clear': 1, 'reinit': 2}
+BULK_ITEM_WANT = {'former-same': 22, 'former-variant': 33, 'present-variant': 20, 'present-exact': 10, 'fresh': 15}
+BULK_SET_WANT = {'former-same': 28, 'former-variant': 34, 'fresh': 20, 'present-variant': 12, 'present-exact': 6}
+
+
+def _pick_bulk(r, m, names, former, want):
+    """Key choice of the 'bulk' flavour.  `former`: lower-cased name -> spelling it was stored under when it was
+    removed from the object the history is running on (and not assigned again since)."""
+    if want.startswith('former'):
+        cands = [sp for sp in former.values() if not m.has(sp)]
+        if cands:
+            k = r.choice(cands)
+            if want == 'former-same':
+                return k
+            alts = [x for x in _group(names, k) if x != k]
+            return r.choice(alts) if alts else k
+        want = 'fresh'
+    if want == 'fresh':
+        absent = [g for g in names if not m.has(g[0]) and g[0].lower() not in former]
+        if absent:
+            return r.choice(r.choice(absent))
+        return _pick(r, m, names, 'absent')
+    return _pick(r, m, names, 'variant' if want == 'present-variant' else 'exact')
+
+
+def gen_bulk_start(r, names, cls):
+    kinds = ({'empty': 10, 'dict': 14, 'parsed-str': 14, 'parsed-bytes': 12, 'parsed-lines': 12, 'iter': 12, 'lazy': 14}
+             if cls == 'Deb822' else {'empty': 15, 'dict': 25, 'pairs': 35, 'lazy': 25})
+    kind = _weighted(r, kinds)
+    if kind == 'empty':
+        return {'kind': 'empty', 'pairs': []}
+    groups = r.sample(names, min(len(names) - 1, r.choice([1, 2, 2, 3, 3, 4, 5])))
+    st = {'kind': kind, 'pairs': [[r.choice(g), _value(r, 900 + i)] for i, g in enumerate(groups)]}
+    if kind.startswith('parsed') or kind in ('iter', 'lazy'):
+        st['sep'] = r.choice([': ', ': ', ':', ':\t', ':  '])
+        st['lead'] = r.choice(['', '', '', '\n', '# comment\n', '\n\n'])
+    return st
+
+
+def gen_bulk_history(r, tier):
+    x = r.random()
+    pool = NAMES[tier] if x < 0.6 else SORT_NAMES if x < 0.75 else UNI_ALPHABET
+    names = r.sample(pool, r.choice([3, 4, 5, 6]))
+    cls_start = 'Deb822' if r.random() < 0.8 else 'Deb822Dict'
+    start = gen_bulk_start(r, names, cls_start)
+    m = CIListMap(start['pairs'])
+    former = {}
+    ops = []
+    state = {'cls': cls_start, 'vid': 0}
+
+    def val():
+        state['vid'] += 1
+        return _value(r, state['vid'])
+
+    def emit(op):
+        before = m.keys()
+        ops.append(op)
+        _apply_to_model(m, op)
+        if op[0] == 'cycle' or (op[0] == 'copy' and op[2] == 'new' and op[1] in COPY_OBJECTS):
+            state['cls'] = _class_after_copy(state['cls'], op) if op[0] == 'copy' else state['cls']
+            former.clear()                      # the history goes on with another object: it has no former names
+            return
+        after = set(k.lower() for k in m.keys())
+        for k in before:
+            if k.lower() not in after:
+                former[k.lower()] = k
+        for lk in after:
+            former.pop(lk, None)
+
+    def pick(table):
+        return _pick_bulk(r, m, names, former, _weighted(r, table))
+
+    def variant(k, p=0.6):
+        alts = [x for x in _group(names, k) if x != k]
+        return r.choice(alts) if alts and r.random() < p else k
+
+    def in_some_order(keys):
+        x = r.random()
+        if x < 0.35:
+            return keys
+        if x < 0.6:
+            return keys[::-1]
+        keys = list(keys)
+        r.shuffle(keys)
+        return keys
+
+    def random_op(weights):
+        kind = _weighted(r, weights)
+        if kind == 'cycle' and state['cls'] != 'Deb822':
+            kind = 'copy'
+        if kind == 'set':
+            return ['set', pick(BULK_SET_WANT), val()]
+        if kind in ('del', 'get', 'in', 'first', 'last'):
+            return [kind, pick(BULK_ITEM_WANT)]
+        if kind in ('before', 'after'):
+            return [kind, pick(BULK_ITEM_WANT), pick(BULK_ITEM_WANT)]
+        if kind == 'sort':
+            return ['sort', _weighted(r, {'default': 50, 'lower': 15, 'rev': 10, 'len': 10, 'str': 5, 'ident': 10})]
+        if kind == 'copy':
+            how = r.choice(COPY_OBJECTS) if r.random() < 0.7 else r.choice(COPY_SNAPSHOTS)
+            return ['copy', how, r.choice(['new', 'old', 'old'])]
+        if kind == 'cycle':
+            return ['cycle', r.choice(CYCLES)]
+        if kind == 'pop':
+            return ['pop', pick(BULK_ITEM_WANT), r.random() < 0.5]
+        if kind == 'setdefault':
+            return ['setdefault', pick(BULK_SET_WANT), val()]
+        if kind == 'update':
+            return ['update', [[pick(BULK_SET_WANT), val()] for _ in range(r.randint(1, 3))], r.choice(BULK_UPDATE_HOWS)]
+        if kind == 'reinit':
+            return ['reinit', r.choice(REINIT_HOWS)]
+        return [kind]                           # popitem, clear
+
+    def removal():
+        kind = _weighted(r, BULK_REMOVALS)
+        if kind == 'copy-then-empty':
+            emit(['copy', r.choice(COPY_OBJECTS), r.choice(['new', 'old'])])
+            kind = r.choice(['clear', 'clear', 'popitem-to-empty', 'del-all'])
+        keys = m.keys()
+        if kind == 'partial-then-clear':
+            for k in in_some_order(keys)[:r.randint(0, max(0, len(keys) - 1))]:
+                emit(r.choice([['del', variant(k)], ['pop', variant(k), False], ['popitem']]))
+            emit(['clear'])
+        elif kind == 'clear':
+            emit(['clear'])
+            if r.random() < 0.15:
+                emit(['clear'])
+        elif kind == 'popitem-to-empty':
+            for _ in keys:
+                emit(['popitem'])
+            if r.random() < 0.6:
+                emit(['popitem'])               # KeyError on the emptied mapping
+        elif kind == 'pop-all':
+            for k in in_some_order(keys):
+                emit(['pop', variant(k), r.random() < 0.5])
+                if r.random() < 0.2:
+                    emit(['pop', variant(k), True])         # gone: the default comes back
+        elif kind == 'del-all':
+            for k in in_some_order(keys):
+                emit(['del', variant(k)])
+        elif kind == 'mixed-to-empty':
+            for _ in range(len(keys)):
+                if not len(m):
+                    break
+                k = r.choice(m.keys())
+                emit(r.choice([['del', variant(k)], ['pop', variant(k), r.random() < 0.5], ['popitem']]))
+        elif kind == 'reinit-self':
+            emit(['reinit', r.choice(REINIT_HOWS)])
+        else:                                   # reinit-other
+            emit(['clear'])
+            emit(['update', [[pick(BULK_SET_WANT), val()] for _ in range(r.randint(1, 4))], r.choice(BULK_UPDATE_HOWS)])
+
+    target = len(m) if len(m) else r.choice([1, 2, 3, 3, 4, 5])
+    for _ in range(8):
+        if len(m) >= target:
+            break
+        emit(['set', pick({'fresh': 1}), val()])
+    for _ in range(r.choice([0, 0, 1, 2, 3, 4])):
+        emit(random_op(BULK_PRELUDE))
+    for _ in range(r.choice([1, 1, 1, 2])):
+        removal()
+        for _ in range(r.randint(3, BULK_REUSE_OPS[tier])):
+            emit(random_op(BULK_REUSE))
+    return {'cls': cls_start, 'start': start, 'ops': ops, 'flavour': 'bulk'}
+
+
+BULK_ENUM_STARTS = (('Deb822', 'empty'), ('Deb822', 'dict'), ('Deb822Dict', 'pairs'), ('Deb822', 'parsed-str'),
+                    ('Deb822', 'parsed-bytes'), ('Deb822', 'parsed-lines'), ('Deb822', 'iter'), ('Deb822', 'lazy'),
+                    ('Deb822Dict', 'lazy'), ('Deb822Dict', 'dict'), ('Deb822Dict', 'empty'))
+BULK_ENUM_REMOVALS = (('clear', 'clear-twice', 'popitem-to-empty', 'popitem-past-empty', 'pop-all',
+                       'pop-all-default-variants', 'del-all', 'del-all-reverse-variants', 'reorder-then-clear',
+                       'reorder-then-popitem')
+                      + tuple('reinit-self:%s' % h for h in REINIT_HOWS)
+                      + tuple('clear-update:%s' % h for h in BULK_UPDATE_HOWS)
+                      + ('copy-new-clear', 'copy-old-clear', 'copy-new-popitem', 'copy-old-popitem', 'cycle-clear',
+                         'del-all-but-one-then-popitem'))
+
+
+def bulk_enum_name_sets(tier):
+    """Seed-independent: 5 name groups per round (three start names, two fresh ones).  Round 0 is ASCII, round 1
+    non-ASCII, the others come from a fixed shuffle of both alphabets."""
+    out = [[NAMES['thorough'][i] for i in (3, 1, 4, 5, 0)],
+           [UNI_NAMES[0], UNI_NAMES[2], UNI_NAMES[5], UNI_NAMES[6], UNI_ASCII_MIX[0]]]
+    rr = random.Random('C09/bulk-enum-names')
+    pool = [g for g in NAMES['thorough'] + SORT_NAMES + UNI_ALPHABET]
+    while len(out) < BULK_ENUM_ROUNDS[tier]:
+        cand, seen = [], set()
+        for g in rr.sample(pool, len(pool)):
+            if g[0].lower() not in seen:
+                seen.add(g[0].lower())
+                cand.append(g)
+            if len(cand) == 5:
+                break
+        out.append(cand)
+    return out[:BULK_ENUM_ROUNDS[tier]]
+
+
+def _bulk_enum_ops(removal, script, K, V, fresh, fresh2, rot, from_empty):
+    """K: the three stored spellings; V: another spelling of each; fresh / fresh2: two spellings each of two names
+    that were never in the mapping."""
+    k0, k1, k2 = K
+    v0, v1, v2 = V
+    ops = [['set', k, 's%d' % i] for i, k in enumerate(K)] if from_empty else []
+    how = COPY_OBJECTS[rot % len(COPY_OBJECTS)]
+    if removal == 'clear':
+        ops += [['clear']]
+    elif removal == 'clear-twice':
+        ops += [['clear'], ['clear']]
+    elif removal == 'popitem-to-empty':
+        ops += [['popitem']] * 3
+    elif removal == 'popitem-past-empty':
+        ops += [['popitem']] * 4
+    elif removal == 'pop-all':
+        ops += [['pop', k, False] for k in K]
+    elif removal == 'pop-all-default-variants':
+        ops += [['pop', v, True] for v in V[::-1]] + [['pop', v0, True]]
+    elif removal == 'del-all':
+        ops += [['del', k] for k in K]
+    elif removal == 'del-all-reverse-variants':
+        ops += [['del', v] for v in V[::-1]]
+    elif removal == 'reorder-then-clear':
+        ops += [['first', v2], ['after', k0, v1], ['clear']]
+    elif removal == 'reorder-then-popitem':
+        ops += [['last', v0], ['sort', 'default']] + [['popitem']] * 3
+    elif removal.startswith('reinit-self:'):
+        ops += [['reinit', removal.split(':')[1]]]
+    elif removal.startswith('clear-update:'):
+        ops += [['clear'], ['update', [[v1, 'u0'], [fresh[0], 'u1'], [k0, 'u2']], removal.split(':')[1]]]
+    elif removal in ('copy-new-clear', 'copy-old-clear'):
+        ops += [['copy', how, removal.split('-')[1]], ['clear']]
+    elif removal in ('copy-new-popitem', 'copy-old-popitem'):
+        ops += [['copy', how, removal.split('-')[1]]] + [['popitem']] * 3
+    elif removal == 'cycle-clear':
+        ops += [['cycle', CYCLES[rot % len(CYCLES)]], ['clear']]
+    elif removal == 'del-all-but-one-then-popitem':
+        ops += [['del', v0], ['pop', k2, False], ['popitem'], ['popitem']]
+    else:
+        raise AssertionError(removal)
+    snap = COPY_HOWS[(rot + 3) % len(COPY_HOWS)]
+    if script == 0:
+        ops += [['in', k0], ['get', v0], ['first', v1], ['before', k1, v0], ['pop', v2, True], ['del', k2],
+                ['sort', 'default'], ['copy', snap, 'old'],
+                ['set', v1, 'n0'], ['set', fresh[0], 'n1'], ['set', k0, 'n2'], ['set', v0, 'n3'],
+                ['last', k1], ['before', v0, fresh[1]], ['sort', 'default'],
+                ['copy', COPY_HOWS[(rot + 7) % len(COPY_HOWS)], 'old'], ['cycle', CYCLES[(rot + 2) % len(CYCLES)]],
+                ['del', v0], ['set', v0, 'n4'], ['setdefault', v2, 'n5'],
+                ['update', [[k2, 'n6'], [fresh2[0], 'n7']], 'pairs'], ['popitem'], ['clear'],
+                ['cycle', CYCLES[(rot + 1) % len(CYCLES)]],       # dump -> parse of the emptied paragraph
+                ['set', k0, 'n8'], ['in', v1]]
+    else:
+        ops += [['set', k0, 'n0'], ['set', v2, 'n1'], ['first', k2], ['after', v0, k2], ['setdefault', v1, 'n2'],
+                ['get', k1], ['copy', COPY_OBJECTS[(rot + 2) % len(COPY_OBJECTS)], 'new'], ['clear'],
+                ['set', v1, 'n3'], ['last', k1], ['popitem'], ['popitem'], ['set', k1, 'n9'], ['popitem'],
+                ['cycle', CYCLES[(rot + 3) % len(CYCLES)]],       # dump -> parse of the emptied paragraph
+                ['update', [[v0, 'n4'], [k1, 'n5'], [fresh[1], 'n6']], 'Deb822Dict'], ['sort', 'ident'],
+                ['cycle', CYCLES[(rot + 4) % len(CYCLES)]], ['pop', k0, False], ['set', k0, 'n7'],
+                ['before', fresh[0], v1], ['reinit', REINIT_HOWS[rot % len(REINIT_HOWS)]], ['del', fresh[0]],
+                ['set', fresh[1], 'n8']]
+    return ops
+
+
+def bulk_enum_cases(ctx):
+    """Every start configuration x every removal script x BULK_ENUM_ROUNDS name sets (quick: each pair with one of
+    the two name sets, alternating), followed by one of the two fixed re-use scripts (alternating)."""
+    idx = 0
+    for ri, groups in enumerate(bulk_enum_name_sets(ctx.tier)):
+        for si, (cls, skind) in enumerate(BULK_ENUM_STARTS):
+            for mi, removal in enumerate(BULK_ENUM_REMOVALS):
+                if ctx.quick and (si + mi) % 2 != ri % 2:
+                    continue                    # quick: each (start, removal) pair with ONE of the two name sets
+                idx += 1
+                if not ctx.mine(idx):
+                    continue
+                rot = ri * 5 + si * 3 + mi
+                K = [g[(ri + j) % len(g)] for j, g in enumerate(groups[:3])]
+                V = [[x for x in g if x != k][(rot + j) % (len(g) - 1)] for j, (k, g) in enumerate(zip(K, groups))]
+                fresh, fresh2 = groups[3][:2], groups[4][:2]
+                st = {'kind': skind, 'pairs': [] if skind == 'empty' else [[k, 's%d' % i] for i, k in enumerate(K)]}
+                if skind.startswith('parsed') or skind in ('iter', 'lazy'):
+                    st['sep'], st['lead'] = ': ', ''
+                ops = _bulk_enum_ops(removal, (si + mi + ri) % 2, K, V, fresh, fresh2, rot, skind == 'empty')
+                cur, out = cls, []
+                for op in ops:                  # dump->parse exists on Deb822 only
+                    if op[0] == 'cycle' and cur != 'Deb822':
+                        op = ['copy', 'ctor', 'new']
+                    if op[0] == 'copy':
+                        cur = _class_after_copy(cur, op)
+                    out.append(list(op))
+                yield {'cls': cls, 'start': st, 'ops': out, 'enum': True, 'flavour': 'bulk-enum'}
+
+
 def tolerated_cases(ctx):
     for tclass in sorted(TOLERATED):
         for a, b in TOLERATED[tclass]:
@@ -884,11 +1261,19 @@ def cases(ctx):
         'non-ASCII names: all operation sequences of length 1..%d over ENUM_OPS with a/b/c replaced by the names %s '
         'from %d start states; every one of the %d sort keys x %d fixed start orders of the non-ASCII names x %d start '
         'kinds' % (UNI_ENUM_LEN[ctx.tier], '/'.join(UNI_ENUM_MAP[k] for k in 'aAbBcC'), len(UNI_ENUM_STARTS),
-                   len(SORT_KEYS), UNI_SORT_ORDERS[ctx.tier], len(SORT_ENUM_STARTS))]
+                   len(SORT_KEYS), UNI_SORT_ORDERS[ctx.tier], len(SORT_ENUM_STARTS)),
+        'bulk removal then re-use: %d start configurations x %d removal scripts x %d name sets, each followed by one '
+        'of 2 fixed re-use scripts%s' % (len(BULK_ENUM_STARTS), len(BULK_ENUM_REMOVALS), BULK_ENUM_ROUNDS[ctx.tier],
+                                         ' (quick: each start x removal pair with one of the 2 name sets)' if ctx.quick else '')]
     if ctx.shard == 0:
         yield {'kind': 'repo-tests'}        # the repository's own tests under K1/K2, as one more workload
     for case in tolerated_cases(ctx):       # every shard (= under every ambient); counted, never judged
         yield case
+    for case in bulk_enum_cases(ctx):
+        yield case
+    r = ctx.rng('histories', 'bulk')
+    for _ in range(ctx.size(BULK_HISTORIES['quick'], BULK_HISTORIES['thorough'])):
+        yield gen_bulk_history(r, ctx.tier)
     for case in uni_sort_cases(ctx):
         yield case
     for case in uni_enum_cases(ctx):
@@ -1159,7 +1544,7 @@ def op_keys(op):
 def op_label(op):
     kind = op[0]
     return {'first': 'order_first', 'last': 'order_last', 'before': 'order_before', 'after': 'order_after',
-            'sort': 'sort_fields', 'cycle': 'dump-parse'}.get(kind, kind)
+            'sort': 'sort_fields', 'cycle': 'dump-parse', 'reinit': 'clear-update'}.get(kind, kind)
 
 
 def classify_reorder(rec, m, op):
@@ -1292,6 +1677,12 @@ def execute(rec, case):
     ins = []
     memo = {}
     last_move = -1          # index of the last operation that effectively changed the order
+    # round 8 (bulk removal, re-use).  All of it concerns the object the history is CURRENTLY running on:
+    former = {}             # lower-cased name -> spelling it was stored under when it was removed (not assigned since)
+    emptied_by = None       # kind of the operation that last took this object from non-empty to empty
+    origin = st['kind']     # start kind while the object is the start object itself; 'copy' / 'cycle' afterwards
+    last_emptied = -1       # index of the last operation that emptied the current object
+    prev_kind = None
 
     universe = []
     for k in [p[0] for p in st['pairs']] + [k for op in ops for k in op_keys(op)]:
@@ -1334,8 +1725,33 @@ def execute(rec, case):
             classify_reorder(rec, m, op)
             before_len = len(m)
             keys_before = m.keys()
+            if emptied_by is not None:
+                rec.count('bulk:after-emptied:op:%s' % kind)
+                if not keys_before:
+                    rec.count('bulk:on-emptied:op:%s' % kind)     # the mapping IS empty, after a removal
+            if former or emptied_by is not None:
+                for pos, x in enumerate(op_keys(op)):
+                    if m.has(x):
+                        continue
+                    if x.lower() in former:
+                        how = 'same' if former[x.lower()] == x else 'variant'
+                        role = '%s-%s' % (kind, 'ref' if pos else 'item') if kind in ('before', 'after') else kind
+                        rec.count('bulk:reuse-former:%s:%s' % (role, how))
+                        if emptied_by is not None:
+                            rec.count('bulk:%s:reuse-former:origin-%s' % (emptied_by, origin))
+                            if kind in ('set', 'setdefault', 'update'):
+                                rec.count('bulk:%s:reassign-former:origin-%s' % (emptied_by, origin))
+                                rec.count('bulk:reassign-former:%s' % how)
+                    elif emptied_by is not None and kind in ('set', 'setdefault', 'update'):
+                        rec.count('bulk:after-emptied:assign-fresh')
+            if kind == 'update' and prev_kind == 'clear':
+                rec.count('bulk:clear-then-update:%s' % op[2])
+            prev_kind = kind
             n_uni = sum(1 for k in keys_before if not k.isascii())
-            expect, value = _apply_to_model(m, op)
+            if kind == 'popitem' and before_len:
+                expect, value = 'ok', None          # WHICH member goes is not demanded: decided after the call
+            else:
+                expect, value = _apply_to_model(m, op)
             if n_uni:
                 if kind == 'sort' and n_uni >= 2:
                     rec.count('uni:sort:%s' % ('default' if op[1] == 'default' else
@@ -1372,6 +1788,10 @@ def execute(rec, case):
                 ins.extend(k.lower() for k in m.keys()[before_len:])
             elif kind in ('del', 'pop') and len(m) != before_len:
                 ins = [k for k in ins if k != op[1].lower()]
+            elif kind == 'clear':
+                ins = []
+            elif kind == 'reinit':
+                ins = [k.lower() for k in m.keys()]          # everything is inserted again, in the current order
             reordered = [k.lower() for k in m.keys()] != ins
 
             # ---- perform on the live object
@@ -1413,8 +1833,32 @@ def execute(rec, case):
                 elif kind == 'update':
                     if op[2] == 'dict':
                         d.update(dict((k, v) for k, v in op[1]))
+                    elif op[2] == 'Deb822Dict':
+                        d.update(deb822.Deb822Dict([(k, v) for k, v in op[1]]))
                     else:
                         d.update([(k, v) for k, v in op[1]])
+                elif kind == 'clear':
+                    d.clear()
+                elif kind == 'popitem':
+                    result = d.popitem()
+                elif kind == 'reinit':
+                    other = (d.copy() if op[1] == 'copy' else type(d)(d) if op[1] == 'ctor' else
+                             deb822.Deb822Dict(d) if op[1] == 'Deb822Dict' else dict(d) if op[1] == 'dict' else
+                             list(d.items()))
+                    rec.count('bulk:reinit:%s' % op[1])
+                    d.clear()
+                    rec.mon('M')
+                    if before_len:
+                        rec.mon('M.emptied')
+                    bad = observe(d, CIListMap(), universe, has_dump, rec)
+                    if bad:
+                        raise Mismatch('clear-update/after-clear/%s' % bad[0],
+                                       'op #%d %r, after d.clear() (model keys before %r): %s'
+                                       % (step, op, keys_before, bad[1]))
+                    d.update(other)
+                    if op[1] in ('copy', 'ctor', 'Deb822Dict'):
+                        ghosts.append((other, m.copy(), step, isinstance(other, deb822.Deb822), 'reinit-source'))
+                        ghosts = ghosts[-4:]
             except Mismatch:
                 raise
             except (KeyError, ValueError) as e:
@@ -1431,10 +1875,26 @@ def execute(rec, case):
                              step + 1), info)
                 if kind == 'in' and result is not value:
                     return (('in/membership', '(%r in d) = %r, model %r' % (op[1], result, value), step + 1), info)
-                if kind in REORDERS or kind == 'sort' or (kind in ('del', 'pop') and len(m) != before_len):
+                if kind == 'popitem':
+                    try:
+                        pk, pv = result
+                        pk, pv = plain(pk), plain(pv)
+                    except (TypeError, ValueError):
+                        return (('popitem/result-is-not-a-pair', 'popitem() returned %r; model %r'
+                                 % (result, m.items()), step + 1), info)
+                    i = m.find(pk) if isinstance(pk, str) else -1
+                    if i < 0 or m.pairs[i][0] != pk or m.pairs[i][1] != pv:
+                        return (('popitem/returned-pair-is-not-a-member', 'popitem() returned %r; members were %r'
+                                 % (result, m.items()), step + 1), info)
+                    rec.count('popitem:%s' % ('only' if before_len == 1 else 'first' if i == 0 else
+                                              'last' if i == before_len - 1 else 'middle'))
+                    del m.pairs[i]
+                    ins = [k for k in ins if k != pk.lower()]
+                if kind in REORDERS or kind == 'sort' or (kind in ('del', 'pop', 'popitem', 'clear')
+                                                          and len(m) != before_len):
                     info['restructured'] = True
             else:
-                fail_class = {'del': 'del-missing', 'get': 'get-missing', 'pop': 'pop-missing',
+                fail_class = {'del': 'del-missing', 'get': 'get-missing', 'pop': 'pop-missing', 'popitem': 'popitem-empty',
                               'first': 'reorder-missing-item', 'last': 'reorder-missing-item'}.get(kind)
                 if kind in ('before', 'after'):
                     if expect == 'ValueError':
@@ -1459,6 +1919,23 @@ def execute(rec, case):
                 if not ok:
                     return (('%s/wrong-exception-%s-instead-of-%s' % (label, type(raised).__name__, expect),
                              'op %r raised %r, expected %s' % (op, raised, expect), step + 1), info)
+
+            # ---- which names left / (re-)entered the mapping (the model is final for this operation here)
+            if kind in ('set', 'del', 'pop', 'popitem', 'clear', 'setdefault', 'update'):
+                now = set(k.lower() for k in m.keys())
+                for k in keys_before:
+                    if k.lower() not in now:
+                        former[k.lower()] = k
+                for lk in now:
+                    former.pop(lk, None)
+                if keys_before and not now:
+                    emptied_by = kind
+                    last_emptied = step
+                    rec.count('bulk:emptied-by:%s' % kind)
+                    rec.count('bulk:emptied:origin-%s' % origin)
+            elif kind == 'reinit' and keys_before:
+                last_emptied = step             # emptied and filled again within one operation
+                rec.count('bulk:emptied-by:reinit')
 
             # ---- copies / re-parsed objects: continue on one, keep the other as a ghost
             if kind == 'copy':
@@ -1487,13 +1964,15 @@ def execute(rec, case):
                     d, has_dump = newd, new_dump
                     memo.clear()
                     ins = [k.lower() for k in m.keys()]
+                    former, emptied_by, origin = {}, None, kind      # another object: no former names, never emptied
                 else:
                     ghost_dump = new_dump
                     rec.mon('M')
                     bad = observe(newd, m, universe, new_dump, rec)      # the copy we do not continue with
                     if bad:
                         return (('%s/%s' % (label, bad[0]), 'the object returned by %r: %s' % (op, bad[1]), step + 1), info)
-                ghosts.append((ghost, m.copy(), step, ghost_dump))
+                ghosts.append((ghost, m.copy(), step, ghost_dump,
+                               'reparse-source' if kind == 'cycle' else 'original' if keep_new else 'copy'))
                 ghosts = ghosts[-4:]
 
             # ---- full observation after EVERY operation, failed ones included
@@ -1502,6 +1981,10 @@ def execute(rec, case):
                 rec.mon('M.failed-op')
             if n_uni or (kind in ('set', 'setdefault', 'update') and not all(k.isascii() for k in m.keys())):
                 rec.mon('M.uni')           # full observation of a paragraph holding non-ASCII field names
+            if emptied_by is not None:
+                rec.mon('M.after-emptied')  # full observation of an object that has been emptied by a removal
+                if not len(m):
+                    rec.mon('M.emptied')    # ... while it has no members
             bad = observe(d, m, universe, has_dump, rec, memo)
             if bad:
                 phase = label if expect == 'ok' else 'failed-%s' % label
@@ -1514,11 +1997,14 @@ def execute(rec, case):
                 return (('%s/%s' % (phase, bad[0]), msg, step + 1), info)
 
         # ---- ghosts must still be what they were
-        for g, gm, gstep, gdump in ghosts:
+        for g, gm, gstep, gdump, grole in ghosts:
             rec.mon('M.ghost')
             if last_move > gstep:
                 rec.count('ghost:other-object-re-ordered-afterwards')
                 rec.mon('M.ghost.after-reorder')
+            if last_emptied > gstep and len(gm):
+                rec.count('bulk:ghost:%s-observed-after-other-object-emptied' % grole)
+                rec.mon('M.ghost.after-emptied')
             bad = observe(g, gm, universe, gdump, rec)
             if bad:
                 return (('copy-or-reparse/other-object-changed-%s' % bad[0],
